@@ -54,7 +54,7 @@ MANIFEST = dict(
               "+ typestate/ordering check of the atomic-replace idiom on the "
               "event log of an AST abstract interpreter",
 )
-FLOORS = {"C19.1": 4, "C19.2": 1, "C19.3": 2, "C19.4": 2}
+FLOORS = {"C19.1": 4, "C19.2": 1, "C19.3": 2, "C19.4": 2, "C19.6": 3}
 
 PROTECTED_FILES = ("settings.json", "assets_version")
 SETTINGS_MOD = "evo.tools.settings"
@@ -739,6 +739,12 @@ def check(ctx):
            "update_if_outdated reads version/settings (after the caller's "
            "own initialize_if_needed, see C19.3)", key="C19.4:reads",
            nontrivial=False)
+    # "... loads its settings successfully and sees every default key": after
+    # an upgrade the file holds the user's settings completed with every
+    # default key that was missing (instances of C18.4, the upgrade merge)
+    from ..core import import_rules
+    n = import_rules(ctx, "c18", ("C18.4",), "C19.6")
+    ctx.require(n >= 3, "C19.6: upgrade-merge instances not found")
 
 
 VARIANTS = [
